@@ -54,7 +54,7 @@ package markers
 //@   ensures err == nil ==> result == nil
 //@   ensures err != nil ==> typeis(result, *withMark) && result.(*withMark).cause == err && result.(*withMark).mark == markOf(reference)
 
-//@ type withMark invariant self.cause != nil
+//@ type withMark invariant self.cause != nil && len(self.mark.types) >= 1
 
 //@ method (*withMark).Error
 //@   props C10
@@ -81,3 +81,15 @@ package markers
 //@           invariant forall k int :: 0 <= k && k < len(refMarks) ==> (exists j int :: 0 <= j && j < $n && references[j] != nil && refMarks[k] == markOf(references[j]))
 //@   loop 6: invariant forall i int :: 0 <= i && i < len(references) && references[i] != nil ==> (isB(err, references[i]) <==> isB(c, references[i]))
 //@   loop 7: invariant forall k int :: 0 <= k && k < $n ==> !markEq(markOf(c), refMarks[k])
+
+//@ func decodeMark
+//@   props C05 C01 C02
+//@   requires cause != nil
+//@   ensures !typeis(payload, *errorspb.MarkPayload) ==> result == nil
+//@   ensures result != nil ==> typeis(result, *withMark) && result.(*withMark).cause == cause && result.(*withMark).mark.msg == payload.(*errorspb.MarkPayload).Msg && result.(*withMark).mark.types == payload.(*errorspb.MarkPayload).Types
+
+//@ func encodeMark
+//@   props C01 C02
+//@   requires typeis(err, *withMark)
+//@   ensures result0 == "" && len(result1) == 0
+//@   ensures typeis(result2, *errorspb.MarkPayload) && result2.(*errorspb.MarkPayload).Msg == err.(*withMark).mark.msg && result2.(*errorspb.MarkPayload).Types == err.(*withMark).mark.types
